@@ -38,7 +38,7 @@ try:
     else:
         t = time.time()
         sh("cmake --build %s -j14 -- -k0 > %s/seed_build.log 2>&1" % (SB, SB), timeout=7200)
-        c = sh("ctest --test-dir %s -j8 --timeout 900 2>&1 | tail -12" % SB, timeout=7200)
+        c = sh("ctest --test-dir %s -j8 --timeout 900 2>&1 | grep -E 'tests passed|tests failed|^[[:space:]]+[0-9]+ - '" % SB, timeout=7200)
         res["suite_s"] = round(time.time() - t)
         res["suite_tail"] = c.stdout[-700:]
         import re
